@@ -211,7 +211,7 @@ impl Engine {
             _ => false,
         };
         let plain_sender = sender.len().checked_sub(self.m.cfg.pprefix.len()) == Some(39);
-        let mut tags: Vec<&'static str> = vec!["C04", "C03"];
+        let mut tags: Vec<&'static str> = vec!["C04", "C03", "C19"];
         let exp_outcome = if *funds != Funds::Exact || a == 0 {
             Expect::Err
         } else if self.m.halted {
@@ -476,7 +476,7 @@ impl Engine {
             // no property says whether an unrepresentable deadline is refused at configuration or at use
             (Expect::Err, vec!["C16"])
         } else {
-            (Expect::Ok, vec!["C06"])
+            (Expect::Ok, vec!["C06", "C19"])
         };
         if now == due || now + 1 == due {
             self.stats.flags.insert("submit_at_boundary");
